@@ -33,8 +33,9 @@ RULE = ("expression trees: (E) exhaustive families over the leaf alphabet "
         "{integer scalar, logical scalar} named by in-order position - "
         "every tree of operator depth <= 2 (quick) / every numeric tree of "
         "depth <= 3 (thorough), and every 'spine' tree (at most one "
-        "non-leaf operand per binary operator) of depth <= 4 (quick) / 5 "
-        "(thorough), numeric and relational/logical layers; (R) Hypothesis "
+        "non-leaf operand per binary operator) of depth <= 4 numeric and "
+        "<= 3 relational/logical (quick) / <= 5 and <= 4 (thorough); (R) "
+        "12 000 (quick) / 160 000 (thorough) Hypothesis "
         "trees of depth <= 5 (quick) / 7 (thorough) over all unary and "
         "binary operators except REM, typed literals incl. signed ones, "
         "scalars, array elements, structure members, MAX MIN ABS MOD SIGN "
@@ -480,9 +481,9 @@ class Reporter:
 def families(ctx):
     if ctx.quick:
         return [("full_num_2", False), ("full_log_2", False),
-                ("spine_num_4", True), ("spine_log_4", True)]
+                ("spine_num_4", True), ("spine_log_3", True)]
     return [("full_num_3", False), ("full_log_2", False),
-            ("spine_num_5", True), ("spine_log_5", True)]
+            ("spine_num_5", True), ("spine_log_4", True)]
 
 
 def is_spine(shape):
@@ -507,7 +508,9 @@ def enumerated_like(spec, quick):
     shape = _shape_of(spec)
     numeric = G.stype(spec)[0] == "i"
     if is_spine(shape):
-        return dep <= (4 if quick else 5)
+        if quick:
+            return dep <= (4 if numeric else 3)
+        return dep <= (5 if numeric else 4)
     if numeric:
         return dep <= (2 if quick else 3)
     return dep <= 2
@@ -654,7 +657,7 @@ def _run(ctx, chk, rep):
 
     try:
         ctx.hyp(prop, G.trees(maxdepth),
-                max_examples=ctx.scale(20000, 400000), shrink=False)
+                max_examples=ctx.scale(12000, 160000), shrink=False)
     except Exception:
         if stored:
             raise stored[0]
